@@ -35,7 +35,7 @@ BUDGET_S = {'quick': 300, 'thorough': 2400}
 RULE = ('case = (layout, action) with all random outcomes enumerated, or one seeded call. non-trivial = layout with at '
         'least one obstacle that has a floor neighbour, resp. agent on a telepod; distinct by layout encoding.')
 ASSUMPTIONS = ['every random outcome = every script of the stand-in generator; exhaustive only for the layouts enumerated']
-EXHAUSTIVE_NOTE = 'all layouts over {floor, obstacle, wall, exit} of grids 1x1..2x3 (<=4 obstacles) and over {floor, obstacle, wall} of 3x3 grids (<=2 obstacles; thorough <=4) x all outcomes; all telepod layouts over {floor, red pod, blue pod} of 2x3 grids x agent cell x all outcomes'
+EXHAUSTIVE_NOTE = 'all layouts over {floor, obstacle, wall, exit} of grids 1x1..2x3 (<=4 obstacles) and over {floor, obstacle, wall} of 3x3 grids (<=2 obstacles; thorough: {floor, obstacle, wall, exit}, <=3 obstacles) x all outcomes; all telepod layouts over {floor, red pod, blue pod} of 2x3 grids x agent cell x all outcomes'
 REQUIRED = {'quick': {'obstacles.layouts': 2000, 'obstacles.outcomes': 10000, 'obstacles.completeness': 1500,
                       'teleport.layouts': 1000, 'teleport.with_partner': 300, 'teleport.unpaired': 100,
                       'teleport.not_on_pod': 300, 'seeded.obstacles': 1000, 'seeded.teleport': 300,
@@ -396,7 +396,7 @@ def run(ctx):
                 if idx % 997 == 0:
                     ctx.sample('obstacle_layout', {'layout': [''.join(r) for r in layout]})
         if True:
-            for layout in all_layouts(3, 3, '.o#', 4 if ctx.thorough else 2, 'o'):
+            for layout in all_layouts(3, 3, '.o#E' if ctx.thorough else '.o#', 3 if ctx.thorough else 2, 'o'):
                 idx += 1
                 if not ctx.mine(idx) or not any('o' in row for row in layout):
                     continue
@@ -406,7 +406,7 @@ def run(ctx):
                     break
                 obstacle_layout_case(ctx, layout)
         # random larger layouts, all outcomes (bounded)
-        for k in range(ctx.pick(600, 6000)):
+        for k in range(ctx.pick(600, 40000)):
             rng = gen.rng_for('C11rand', ctx.seed, ctx.shard, k)
             layout = rand_layout(rng, 5, 5, '.o#Ek', [5, 2, 1, 1, 1], 4)
             if any('o' in row for row in layout):
@@ -422,16 +422,16 @@ def run(ctx):
                     teleport_case(ctx, layout, (y, x, gen.ORIENTATIONS[(idx + x) % 4]), action)
             if idx % 211 == 0:
                 ctx.sample('telepod_layout', {'layout': [''.join(r) for r in layout]})
-        for k in range(ctx.pick(100, 2000)):
+        for k in range(ctx.pick(100, 10000)):
             rng = gen.rng_for('C11tp', ctx.seed, ctx.shard, k)
             layout = rand_layout(rng, 4, 4, '.RBG#', [5, 2, 2, 2, 1], 5, o='R')
             h, w = len(layout), len(layout[0])
             for action in Action:
                 teleport_case(ctx, layout, (rng.randrange(h), rng.randrange(w), rng.choice(gen.ORIENTATIONS)), action)
-        seeded(ctx, ctx.pick(1500, 30000))
+        seeded(ctx, ctx.pick(1500, 300000))
         with Patch() as patch:
             install_history_hooks(ctx, patch)
-            dyndrive.shipped_histories(ctx, 'C11hist', ['dynamic_obstacles', 'teleport'], ctx.pick(2, 10),
+            dyndrive.shipped_histories(ctx, 'C11hist', ['dynamic_obstacles', 'teleport'], ctx.pick(2, 40),
                                        ctx.pick(200, 600), None, policies=['random', 'edge_seeking'])
 
 
